@@ -10,7 +10,7 @@ import numpy as np
 
 from vlib.core import Result, pmap, merge_results, SEED, quiet
 from vlib import geom
-from vlib.grids import fresh_sphere_grid, dense
+from vlib.grids import scribble, fresh_sphere_grid, dense
 
 YES, NO = 1e-7, 1e-12
 
@@ -108,10 +108,14 @@ def judge(case):
             break
     try:
         with quiet():
+            for handed in (adj, bor, dis):     # the caller edits what it was handed in place (units, masking)
+                scribble(handed)
             g.get_spherical_voronoi().get_voronoi_volumes()
             dis2, bor2, adj2 = g.get_center_distances(), g.get_cell_borders(), g.get_voronoi_adjacency()
-        if not (np.array_equal(dense(bor2), dense(bor)) and np.array_equal(dense(adj2), dense(adj)) and np.array_equal(dense(dis2), dense(dis))):
-            msgs.append(f"{alg}_{N}: asking the same grid again (other getter order, after the volume estimate) changes the matrices")
+        if not (np.array_equal(dense(bor2).astype(float), B) and np.array_equal(dense(adj2).astype(float), A)
+                and np.array_equal(dense(dis2).astype(float), D)):
+            msgs.append(f"{alg}_{N}: asking the same grid again (other getter order, after the volume estimate and after the caller "
+                        f"edited the first results in place) changes the matrices")
     except Exception as e:
         msgs.append(f"{alg}_{N}: second round of getters raised {type(e).__name__}: {e}")
     return msgs[:6], info
